@@ -215,7 +215,7 @@ func (g *psGen) litStringText(b []byte) string {
 		sb.WriteByte('<')
 		for i, c := range b {
 			if t.Bool(1, 8) {
-				sb.WriteString([]string{" ", "\n", "\t", "\r\n", "\x00"}[t.Choose(5)])
+				sb.WriteString([]string{" ", "\n", "\t", "\r\n", "\x00", "\x0b", "\x0c", "\x1a", "\x1f", "\x08", "\x01"}[t.Choose(11)])
 			}
 			h := fmt.Sprintf("%02x", c)
 			if t.Bool(1, 3) {
